@@ -13,12 +13,14 @@ import (
 	"bufio"
 	"bytes"
 	"context"
+	"crypto/sha256"
 	"encoding/base64"
 	"encoding/json"
 	"fmt"
 	"hash/fnv"
 	"math/rand"
 	"os"
+	"path/filepath"
 	"runtime"
 	"runtime/debug"
 	"runtime/metrics"
@@ -33,6 +35,8 @@ import (
 	scalibrfs "github.com/google/osv-scalibr/fs"
 )
 
+const maxConfirm = 3
+
 type unit struct {
 	U       int    `json:"u"`
 	Ex      string `json:"ex"`
@@ -40,6 +44,7 @@ type unit struct {
 	Path    string `json:"path"`
 	Exec    bool   `json:"exec"`
 	Plans   []int  `json:"plans"` // indices into the plans file
+	HardMs  int    `json:"hard_ms,omitempty"` // override of the confirmation budget (witnesses of listed finding classes)
 }
 
 func loadPlans(path string) ([]*plan, [][]byte, error) {
@@ -116,6 +121,9 @@ func mutateChild(e *Env, job []byte, m *emitter) error {
 	soft := time.Duration(argInt(e, "soft_ms", 10000)) * time.Millisecond
 	hard := time.Duration(argInt(e, "hard_ms", 100000)) * time.Millisecond
 	budget := uint64(argInt(e, "budget_mib", 1024)) << 20
+	if u.HardMs > 0 {
+		hard = time.Duration(u.HardMs) * time.Millisecond
+	}
 	inf := childReg[u.Ex]
 	if inf == nil {
 		return fmt.Errorf("unknown extractor %q", u.Ex)
@@ -129,7 +137,26 @@ func mutateChild(e *Env, job []byte, m *emitter) error {
 		return err
 	}
 	defer os.RemoveAll(root)
+	// files the extractor opens itself next to the required one are present and valid
+	for _, c := range inf.Companions {
+		cd, err := fixtureBytes(repoDir(e), c.Fixture)
+		if err != nil {
+			return err
+		}
+		if err := writeAt(root, c.Path, cd, false); err != nil {
+			return err
+		}
+	}
 	sfs := scalibrfs.DirFS(root)
+	// at most maxConfirm timeouts per extractor get the 10x confirmation (100 s each); later slow
+	// evaluations of the same extractor end at the soft limit and are reported as "Slow" (not a verdict)
+	confirmFile := filepath.Join(e.Tmp, "confirmed-"+strings.ReplaceAll(u.Ex, "/", "_"))
+	confirmed := func() int {
+		if fi, err := os.Stat(confirmFile); err == nil {
+			return int(fi.Size())
+		}
+		return 0
+	}
 	n, changed, errs, withPkgs := 0, 0, 0, 0
 	var maxDur time.Duration
 	slow := []int{}
@@ -142,7 +169,7 @@ func mutateChild(e *Env, job []byte, m *emitter) error {
 		if err := writeAt(root, u.Path, mut, u.Exec); err != nil {
 			return err
 		}
-		ex, err := freshExtractor(u.Ex)
+		ex, err := boundedExtractor(u.Ex)
 		if err != nil {
 			return err
 		}
@@ -193,9 +220,17 @@ func mutateChild(e *Env, job []byte, m *emitter) error {
 				if el > soft && !wasSlow {
 					wasSlow = true
 					slow = append(slow, pi)
+					if hard > soft && confirmed() >= maxConfirm {
+						class = "Slow"
+						break wait
+					}
 				}
 				if el > hard {
 					class = "Timeout"
+					if f, err := os.OpenFile(confirmFile, os.O_APPEND|os.O_CREATE|os.O_WRONLY, 0o644); err == nil {
+						f.Write([]byte{'x'})
+						f.Close()
+					}
 					break wait
 				}
 			}
@@ -246,6 +281,79 @@ func loadRegistryLight(e *Env) (map[string]*exInfo, error) {
 }
 
 // ---- parent ----
+
+// knownClass is an OPEN finding class listed in known_findings.json (passed in by the orchestrator):
+// a predicate over scenarios. Scenarios in the class are expected to fail, so only the first
+// `Witnesses` of them per extractor are evaluated (enough to report the finding); the others are
+// counted as skipped. Classes that are not listed are never skipped.
+type knownClass struct {
+	ID         string   `json:"id"`
+	Extractors []string `json:"extractors"`
+	Ops        []struct {
+		Op   string   `json:"op"`
+		X    []string `json:"x"`
+		MinI int      `json:"min_i"`
+	} `json:"ops"` // empty: every plan
+	Witnesses int `json:"witnesses"`
+}
+
+func (k *knownClass) matches(ex string, p *plan) bool {
+	ok := false
+	for _, e := range k.Extractors {
+		if e == ex {
+			ok = true
+		}
+	}
+	if !ok {
+		return false
+	}
+	if len(k.Ops) == 0 {
+		return true
+	}
+	for _, o := range p.Ops {
+		for _, ko := range k.Ops {
+			if ko.Op != o.Op || o.I < ko.MinI {
+				continue
+			}
+			if len(ko.X) == 0 {
+				return true
+			}
+			for _, x := range ko.X {
+				if x == o.X {
+					return true
+				}
+			}
+		}
+	}
+	return false
+}
+
+// planSubset: all plans of depth <= 1 (or a stratified sample of n1 of them), plus a stratified
+// sample of n2 plans of depth 2 (0 = all, < 0 = none).
+func planSubset(plans []*plan, n1, n2 int, seed int64, key string) []int {
+	d1, d2 := []*plan{}, []*plan{}
+	i1, i2 := []int{}, []int{}
+	for i, p := range plans {
+		if len(p.Ops) <= 1 {
+			d1 = append(d1, p)
+			i1 = append(i1, i)
+		} else {
+			d2 = append(d2, p)
+			i2 = append(i2, i)
+		}
+	}
+	out := []int{}
+	for _, j := range stratifiedPlans(d1, n1, seed, key+"|1") {
+		out = append(out, i1[j])
+	}
+	if n2 >= 0 && len(d2) > 0 {
+		for _, j := range stratifiedPlans(d2, n2, seed, key+"|2") {
+			out = append(out, i2[j])
+		}
+	}
+	sort.Ints(out)
+	return out
+}
 
 func stratifiedPlans(plans []*plan, n int, seed int64, key string) []int {
 	all := make([]int, len(plans))
@@ -311,7 +419,62 @@ func init() {
 		if err != nil {
 			return err
 		}
-		sample, seed, npaths := argInt(e, "sample", 0), int64(argInt(e, "seed", 1)), argInt(e, "paths", 2)
+		n1, n2, seed, npaths := argInt(e, "sample1", 0), argInt(e, "sample2", 0), int64(argInt(e, "seed", 1)), argInt(e, "paths", 2)
+		chunk := argInt(e, "chunk", 128)
+		// caps: "extractor:n1:n2,..." smaller samples for extractors whose evaluations are slow by design
+		caps := map[string][2]int{}
+		for _, c := range strings.Split(e.Args["cap"], ",") {
+			f := strings.Split(c, ":")
+			if len(f) == 3 {
+				a, _ := strconv.Atoi(f[1])
+				b, _ := strconv.Atoi(f[2])
+				caps[f[0]] = [2]int{a, b}
+			}
+		}
+		known := []*knownClass{}
+		if kf := e.Args["known"]; kf != "" {
+			b, err := os.ReadFile(kf)
+			if err != nil {
+				return err
+			}
+			if err := json.Unmarshal(b, &known); err != nil {
+				return err
+			}
+		}
+		knownTaken := map[string]int{}
+		skippedKnown := map[string]int{}
+		witness := map[[2]int]bool{} // (unit, plan) pairs evaluated only as witnesses of a listed class
+		pick := func(un int, exName, fx, p string) []int {
+			a, b := n1, n2
+			if c, ok := caps[exName]; ok {
+				a, b = c[0], c[1]
+			}
+			idx := planSubset(plans, a, b, seed, exName+"|"+fx+"|"+p)
+			if len(known) == 0 {
+				return idx
+			}
+			out := idx[:0:0]
+			for _, pi := range idx {
+				skip := false
+				for _, k := range known {
+					if k.matches(exName, plans[pi]) {
+						key := k.ID + "|" + exName
+						if knownTaken[key] >= k.Witnesses {
+							skip = true
+							skippedKnown[k.ID]++
+						} else {
+							knownTaken[key]++
+							witness[[2]int{un, pi}] = true
+						}
+						break
+					}
+				}
+				if !skip {
+					out = append(out, pi)
+				}
+			}
+			return out
+		}
 		deadline := time.Duration(argInt(e, "deadline_s", 0)) * time.Second
 		repo := repoDir(e)
 		units := []*unit{}
@@ -332,6 +495,9 @@ func init() {
 			if e.Args["ex"] != "" && e.Args["ex"] != inf.Name {
 				continue
 			}
+			if e.Args["skipex"] != "" && strings.Contains(","+e.Args["skipex"]+",", ","+inf.Name+",") {
+				continue
+			}
 			nu := 0
 			for _, fx := range inf.Fixtures {
 				if e.Args["fixture"] != "" && e.Args["fixture"] != fx.Rel {
@@ -342,7 +508,7 @@ func init() {
 						continue
 					}
 					u := &unit{U: len(units), Ex: inf.Name, Fixture: fx.Rel, Path: p, Exec: inf.NeedExec[p]}
-					u.Plans = stratifiedPlans(plans, sample, seed, inf.Name+"|"+fx.Rel+"|"+p)
+					u.Plans = pick(u.U, inf.Name, fx.Rel, p)
 					sizes[u.U] = fx.Size
 					units = append(units, u)
 					nu++
@@ -353,7 +519,7 @@ func init() {
 				for _, fx := range inf.Fixtures {
 					if e.Args["fixture"] == "" || e.Args["fixture"] == fx.Rel {
 						u := &unit{U: len(units), Ex: inf.Name, Fixture: fx.Rel, Path: e.Args["path"], Exec: !acceptsMode(inf.Ex, e.Args["path"], 0o644)}
-						u.Plans = stratifiedPlans(plans, sample, seed, inf.Name+"|"+fx.Rel+"|"+u.Path)
+						u.Plans = pick(u.U, inf.Name, fx.Rel, u.Path)
 						units = append(units, u)
 						nu++
 					}
@@ -371,9 +537,31 @@ func init() {
 		jobs := make([][]byte, 0, len(units))
 		jobUnit := []int{}
 		for _, i := range order {
-			b, _ := json.Marshal(units[i])
-			jobs = append(jobs, b)
-			jobUnit = append(jobUnit, i)
+			u := *units[i]
+			all := []int{}
+			wit := []int{}
+			for _, pi := range u.Plans {
+				if witness[[2]int{u.U, pi}] {
+					wit = append(wit, pi)
+				} else {
+					all = append(all, pi)
+				}
+			}
+			for _, pi := range wit {
+				// a witness of a listed finding is expected to fail: no 10x confirmation, one per job
+				w := u
+				w.Plans = []int{pi}
+				w.HardMs = argInt(e, "soft_ms", 10000)
+				b, _ := json.Marshal(w)
+				jobs = append(jobs, b)
+				jobUnit = append(jobUnit, i)
+			}
+			for a := 0; a < len(all); a += chunk {
+				u.Plans = all[a:min(a+chunk, len(all))]
+				b, _ := json.Marshal(u)
+				jobs = append(jobs, b)
+				jobUnit = append(jobUnit, i)
+			}
 		}
 		outf, err := os.Create(e.Out)
 		if err != nil {
@@ -388,6 +576,7 @@ func init() {
 			w.WriteByte('\n')
 		}
 		reported := map[[2]int]bool{}
+		withBytes := map[string]int{}
 		startFail := 0
 		t0 := time.Now()
 		notRun := 0
@@ -396,7 +585,12 @@ func init() {
 			mut := applyPlan(data, plans[pi])
 			rec := map[string]any{"finding": true, "u": u.U, "ex": u.Ex, "fixture": u.Fixture, "path": u.Path, "exec": u.Exec, "p": pi,
 				"plan": plans[pi], "plan_str": plans[pi].String(), "class": class, "detail": detail,
-				"nontrivial": !bytes.Equal(mut, data), "bytes_b64": base64.StdEncoding.EncodeToString(mut), "size": len(mut)}
+				"nontrivial": !bytes.Equal(mut, data), "size": len(mut), "sha256": fmt.Sprintf("%x", sha256.Sum256(mut))}
+			// the reproducing bytes: always for small files, and for the first findings of each <extractor, class>
+			withBytes[u.Ex+"|"+class]++
+			if len(mut) <= 4096 || withBytes[u.Ex+"|"+class] <= 40 {
+				rec["bytes_b64"] = base64.StdEncoding.EncodeToString(mut)
+			}
 			for k, v := range extra {
 				rec[k] = v
 			}
@@ -423,6 +617,11 @@ func init() {
 					return
 				}
 				reported[[2]int{r.U, r.P}] = true
+				if r.Class == "Slow" {
+					u := units[r.U]
+					enc(map[string]any{"slow_unconfirmed": true, "ex": u.Ex, "fixture": u.Fixture, "path": u.Path, "plan_str": plans[r.P].String(), "ms": r.Ms})
+					return
+				}
 				finding(units[r.U], r.P, r.Class, r.Detail, map[string]any{"ms": r.Ms, "peak_bytes": r.Peak})
 			},
 			OnDeath: func(job int, jobRaw []byte, d death) []byte {
@@ -435,7 +634,7 @@ func init() {
 				if d.LastBegin == nil || json.Unmarshal(d.LastBegin, &lb) != nil {
 					startFail++
 					if startFail > 5 {
-						enc(map[string]any{"fatal": "children keep dying before their first evaluation: " + d.Why + "\n" + d.Stderr})
+						enc(map[string]any{"harness_fatal": "children keep dying before their first evaluation: " + d.Why + "\n" + d.Stderr})
 						return nil
 					}
 					return jobRaw
@@ -471,7 +670,8 @@ func init() {
 		perr := runPoolDeadline(e, pc, jobs, deadline, func(job int) { notRun++; enc(map[string]any{"not_run": true, "u": jobUnit[job]}) })
 		meta["plans"] = len(plans)
 		meta["units"] = len(units)
-		meta["units_not_run"] = notRun
+		meta["jobs_not_run"] = notRun
+		meta["skipped_known_class"] = skippedKnown
 		meta["skipped"] = skipped
 		meta["covered"] = covered
 		meta["wall_s"] = time.Since(t0).Seconds()
